@@ -25,3 +25,16 @@ def nested(n):
 class Unpicklable:
     def __reduce__(self):
         raise ZeroDivisionError("cannot be pickled")
+
+
+def tree_nap(n, t):
+    """A task whose worker has n helper subprocesses (reaped promptly by the worker when they end) while it runs."""
+    import subprocess
+    import threading
+    ps = [subprocess.Popen(["sleep", "60"], stdin=subprocess.DEVNULL) for _ in range(n)]
+    for p in ps:
+        threading.Thread(target=p.wait, daemon=True).start()
+    time.sleep(t)
+    for p in ps:
+        p.kill()
+    return os.getpid()
